@@ -64,7 +64,9 @@ def run_case(case):
         dss = []
         for k in range(n):
             d = pydicom.Dataset(); d.PatientID = 'I%d' % k; dss.append(d)
-        a = svc.MockAssociation(types.SimpleNamespace(on_receive_find=lambda c, d: iter((x, statuses.C_FIND_PENDING) for x in dss)))
+        # the handler's statuses differ from match to match: each response must carry its own
+        pend = [statuses.C_FIND_PENDING, statuses.C_FIND_PENDING_WARNING]
+        a = svc.MockAssociation(types.SimpleNamespace(on_receive_find=lambda c, d: iter((x, pend[(k + mid) % 2]) for k, x in enumerate(dss))))
         q = pydicom.Dataset(); q.PatientID = '*'
         rq, _ = svc.received(dm.CFindRQMessage, pc, message_id=mid, sop_class_uid=cls_uid, priority=0, data_set=dsutils.encode(q, True, True))
         sc.qr_find_scp(a, svc.ctx(pc, cls_uid), rq)
@@ -72,7 +74,7 @@ def run_case(case):
         if len(w) != n + 1:
             return 'C-FIND-RQ with %d matches answered with %d responses' % (n, len(w))
         for k, x in enumerate(w):
-            v = expect(svc.fields(x), pc, mid, cls_uid, None, 0x8020, 0xFF00 if k < n else 0, 'C-FIND-RSP #%d' % (k + 1))
+            v = expect(svc.fields(x), pc, mid, cls_uid, None, 0x8020, (0xFF00 + (k + mid) % 2) if k < n else 0, 'C-FIND-RSP #%d' % (k + 1))
             if v:
                 return v
         return None
